@@ -30,6 +30,8 @@
 #include <sys/stat.h>
 #include <sys/types.h>
 #include <malloc.h>
+#include <poll.h>
+#include <sys/prctl.h>
 
 // ------------------------------------------------------------------------------------------------ TSan glue
 #if defined(__SANITIZE_THREAD__)
@@ -1690,6 +1692,7 @@ static void runCaseForked(long long k, int reps)
    {
       close(pfd[0]);
       gProgressFd = pfd[1];
+      prctl(PR_SET_PDEATHSIG, SIGKILL);      // never outlive the worker
 #ifdef VL_TSAN
       // the child's race reports go to their own log: the parent attributes them (see attributeChildTsanLog)
       __sanitizer_set_report_path((workDir + "/mpschild.tsanlog").c_str());
@@ -1727,10 +1730,44 @@ static void runCaseForked(long long k, int reps)
    std::string data;
    char buf[4096];
    ssize_t n;
-   while((n = read(pfd[0], buf, sizeof buf)) > 0) data.append(buf, (size_t)n);
+   // generous watchdog on progress markers (a mis-tokenised file could in principle send a reader into a loop); its firing is
+   // inconclusive, never a verdict
+   const int gapMs = (kTsan ? 1500 : 300) * 1000;
+   bool timedOut = false;
+   while(true)
+   {
+      struct pollfd pf;
+      pf.fd = pfd[0];
+      pf.events = POLLIN;
+      pf.revents = 0;
+      int pr = poll(&pf, 1, gapMs);
+      if(pr == 0)
+      {
+         timedOut = true;
+         kill(pid, SIGKILL);
+         break;
+      }
+      if(pr < 0)
+      {
+         if(errno == EINTR) continue;
+         break;
+      }
+      n = read(pfd[0], buf, sizeof buf);
+      if(n <= 0) break;
+      data.append(buf, (size_t)n);
+   }
    close(pfd[0]);
    int status = 0;
    waitpid(pid, &status, 0);
+   if(timedOut)
+   {
+      S.count("mps.child_watchdog_fired");
+      S.note("inconclusive", "forked mps-kind case " + std::to_string(k) + " made no progress for " + std::to_string(gapMs / 1000) + " s and was killed");
+      S.count("cases");
+      S.count("cases.kind.mps");
+      unlink((workDir + "/mpschild.tsanlog." + std::to_string((long long)pid)).c_str());
+      return;
+   }
    bool done = false;
    std::string lastPhase = "start";
    std::istringstream is(data);
